@@ -15,6 +15,7 @@ var Alphabets = []string{
 	4: "=!~<>|()[]",                                   // operators and brackets
 	5: ";'\"`/\\\na1= ",                               // statement splitting
 	6: "a1 \t\n.,-+*/%&#\x00\x80\xc2\xa0\xe2\x80\xa8", // layout, odd bytes, multi-byte white space
+	8: "'\\t\na",                                      // two string literals with escapes on two lines
 	7: ";()[]|a1 ,'",                                  // statement splitting next to brackets
 }
 
